@@ -302,3 +302,26 @@ class PartialVal:
 
 class AutoVal:
     """enum.auto()"""
+
+
+class DequeVal(list):
+    """collections.deque: a list that can also be worked from the left"""
+
+
+class DefaultDictVal(dict):
+    """collections.defaultdict(factory)"""
+    factory = None
+
+
+class SuppressVal:
+    """contextlib.suppress(*classes)"""
+
+    def __init__(self, classes):
+        self.classes = list(classes)
+
+
+class ChainMapVal:
+    """collections.ChainMap(*maps): lookups go through the maps in order, stores into the first"""
+
+    def __init__(self, maps):
+        self.maps = list(maps) or [{}]
